@@ -31,7 +31,7 @@ def interp_units(tier):
 
 
 def run_config(rec, clause_total, T, hits, depth, mode, grouped, on_run):
-    size = len(hits) * 100 + max(depth, 0) * 10 + hitx.MODES.index(mode) + (5 if grouped else 0)
+    size = len(hits) * 100 + max(depth, 0) * 10 + hitx.ALL_MODES.index(mode) + (5 if grouped else 0)
     w = {"engine": "hitx", "T": T, "hits": [list(h) for h in hits], "depth": depth, "mode": mode, "grouped": grouped}
     rec.count("evaluations")
     ok, run = rec.guard(clause_total, w, size, hitx.execute, T, hits, depth, mode, grouped)
